@@ -87,9 +87,14 @@ pub fn raw_dg(max_order: usize) -> impl Strategy<Value = RawDg> {
 
 /// Like `raw_dg`, with about one case in 25 at one of `BIG_ORDERS`.
 pub fn raw_dg_big(max_order: usize) -> impl Strategy<Value = RawDg> {
+    raw_dg_big_rate(max_order, 24)
+}
+
+/// Like `raw_dg`, with one case in `ordinary + 1` at one of `BIG_ORDERS`.
+pub fn raw_dg_big_rate(max_order: usize, ordinary: u32) -> impl Strategy<Value = RawDg> {
     raw_dg_orders(
         prop_oneof![
-            24 => order_strategy(max_order),
+            ordinary => order_strategy(max_order),
             1 => proptest::sample::select(BIG_ORDERS.to_vec()),
         ]
         .boxed(),
@@ -387,6 +392,10 @@ pub fn weighted_usize_big(max_order: usize) -> BoxedStrategy<(WDg<usize>, String
     weighted_usize_from(raw_dg_big(max_order).boxed())
 }
 
+pub fn weighted_usize_big_rate(max_order: usize, ordinary: u32) -> BoxedStrategy<(WDg<usize>, String)> {
+    weighted_usize_from(raw_dg_big_rate(max_order, ordinary).boxed())
+}
+
 fn weighted_usize_from(raw: BoxedStrategy<RawDg>) -> BoxedStrategy<(WDg<usize>, String)> {
     (raw, any::<u8>(), vec(any::<u32>(), 64))
         .prop_map(|(r, class, ws)| {
@@ -477,8 +486,16 @@ pub fn iweights(
 }
 
 pub fn weighted_isize(max_order: usize) -> BoxedStrategy<(WDg<isize>, String)> {
+    weighted_isize_from(raw_dg(max_order).boxed())
+}
+
+pub fn weighted_isize_big_rate(max_order: usize, ordinary: u32) -> BoxedStrategy<(WDg<isize>, String)> {
+    weighted_isize_from(raw_dg_big_rate(max_order, ordinary).boxed())
+}
+
+fn weighted_isize_from(raw: BoxedStrategy<RawDg>) -> BoxedStrategy<(WDg<isize>, String)> {
     (
-        raw_dg(max_order),
+        raw,
         any::<u8>(),
         vec(any::<u32>(), 64),
         vec(any::<u16>(), 16),
